@@ -613,8 +613,11 @@ def f4_runtime_names(ctx: Ctx):
                 a = v.args[0]
                 if isinstance(a, ast.Call) and (call_name(a) or '').endswith('gensym.fresh'):
                     return bool(a.args) and own(a.args[0], depth)
-                # a program identifier: the name of a node of the program (`e.name`, `stmt.var`, `target`, a loop variable over them)
-                return isinstance(a, (ast.Attribute, ast.Name))
+                return False
+            # a program identifier: the name of a node of the program (`e.name`, `stmt.var`, `target`), written through the
+            # one function that gives a variable spelled like a runtime name another name (decided below)
+            if isinstance(v, ast.Call) and call_name(v) == 'self._pyname' and len(v.args) == 1:
+                return isinstance(v.args[0], (ast.Attribute, ast.Name))
             return False
         for k in calls_in(m):
             if call_name(k) == 'pyast.Name':
@@ -627,6 +630,43 @@ def f4_runtime_names(ctx: Ctx):
                           '`ps = zip(xs, ys); list = 1.0` raises UnboundLocalError')
     if n < 35:
         raise ShapeError(f'only {n} emitted names found')
+    # `_pyname`: a variable keeps its spelling unless the renaming table has it, and the table has every variable of the
+    # program (not the captured ones, which live in the namespace under their own names) spelled like a key of the
+    # runtime's namespace or like the context name, each with a generated `__fpy_` name.  Evaluated from the source.
+    from ..minipy import Interp, Obj
+    meths = {s.name: s for s in comp.body if isinstance(s, ast.FunctionDef)}
+    pn, init = meths.get('_pyname'), meths.get('__init__')
+    if pn is None or init is None:
+        raise ShapeError('BytecodeCompiler._pyname / __init__ not found')
+
+    def nid(label):
+        o = Obj('NamedId', label=label)
+        o.fields['__str__'] = lambda o=o: o.fields['label']
+        return o
+
+    def str_(o):
+        return o.fields['__str__']() if isinstance(o, Obj) and '__str__' in o.fields else str(o)
+    x, add, ctxn, cap = nid('x'), nid('__fpy_Add'), nid('__ctx__'), nid('__fpy_call')
+    cnt = [0]
+
+    def fresh(prefix='t'):
+        cnt[0] += 1
+        return nid(f'{prefix}{cnt[0]}')
+    me = Obj('BytecodeCompiler')
+    it = Interp({}, meths, self_obj=me, globals_={'CTX_NAME': '__ctx__', 'str': str_}, is_a=lambda k, c: k == c,
+                overrides={'DefineUse.analyze': lambda f: Obj('DefineUseAnalysis', names=lambda: {x, add, ctxn, cap}), 'Gensym': lambda reserved=None: Obj('Gensym', fresh=fresh),
+                           'make_namespace': lambda: {'__fpy_Add': 1, '__fpy_call': 2, '__fpy_eq': 3}, 'str': str_})
+    it.call_function(init, [Obj('FuncDef', free_vars={cap}), Obj('ForeignEnv')], bound_self=True)
+    table = me.fields.get('_renamed')
+    ok = isinstance(table, dict) and set(table) == {add, ctxn} and all(isinstance(v, str) and v.startswith('__fpy_') and v not in ('__fpy_Add', '__fpy_call', '__fpy_eq', '__ctx__') for v in table.values()) \
+        and len(set(table.values())) == len(table)
+    ctx.check(ok, BYTE, init, 'BytecodeCompiler.__init__', 'the renaming table holds exactly the program\'s own variables spelled like a runtime name, each with a generated name of its own',
+              f'table {({str_(k): v for k, v in table.items()} if isinstance(table, dict) else table)!r} for variables x, __fpy_Add, __ctx__ and a captured __fpy_call: '
+              '`for __fpy_Add in range(n): pass; return x + 1` raises UnboundLocalError with n = 0')
+    if isinstance(table, dict):
+        got = {str_(k): Interp({}, meths, self_obj=me, globals_={'str': str_}, overrides={'str': str_}).call_function(pn, [k], bound_self=True) for k in (x, add, cap)}
+        ctx.check(got.get('x') == 'x' and got.get('__fpy_Add') == table.get(add) and got.get('__fpy_call') == '__fpy_call', BYTE, pn, 'BytecodeCompiler._pyname',
+                  'a variable is written under its own spelling unless the table renames it', f'got {got}')
 
 
 def t5_negated_literals(ctx: Ctx):
@@ -956,6 +996,9 @@ RULES = [
 from ..selftest import Mutant  # noqa: E402
 
 MUTANTS = [
+    Mutant('program-variable-written-under-its-own-spelling', BYTE, "        return pyast.Name(id=self._pyname(e.name), ctx=pyast.Load(), **attrs)\n", "        return pyast.Name(id=str(e.name), ctx=pyast.Load(), **attrs)\n", 'C04.F4',
+           'finding F135 before its repair: a variable spelled __fpy_Add captures the helper'),
+    Mutant('context-name-not-among-the-runtime-names', BYTE, "        runtime = set(make_namespace()) | {CTX_NAME}\n", "        runtime = set(make_namespace())\n", 'C04.F4'),
     Mutant('chain-in-a-comprehension-iterable-bound-by-walrus', BYTE, "        if self._comp_iterable > 0 and len(args) > 2:", "        if False:", 'C04.F3',
            'finding F119 before its repair: [y for y in (xs if a < b < 3 else ys)] is accepted and fails with SyntaxError'),
     Mutant('nested-chain-tests-before-binding-the-next-operand', BYTE, "            return bind(i + 1, both)\n", "            return pyast.BoolOp(op=pyast.And(), values=[pair(e.ops[i], load(i), args[i + 1]), bind(i + 1, rest(i + 1))], **attrs)\n", 'C04.F3',
